@@ -235,10 +235,13 @@ func scanAggSym(c *core.Ctx) []ob {
 			case *ast.SwitchStmt:
 				if v.Tag == nil {
 					for _, cl := range v.Body.List {
-						if cc, ok := cl.(*ast.CaseClause); ok && returns(cc.Body) {
-							for _, e := range cc.List {
-								guardConds = append(guardConds, guardCond{e})
+						if cc, ok := cl.(*ast.CaseClause); ok && returns(cc.Body) && len(cc.List) > 0 {
+							// `case a, b, c:` is the disjunction of its expressions
+							cond := cc.List[0]
+							for _, e := range cc.List[1:] {
+								cond = &ast.BinaryExpr{X: cond, Op: token.LOR, Y: e}
 							}
+							guardConds = append(guardConds, guardCond{cond})
 						}
 					}
 				}
@@ -262,25 +265,40 @@ func scanAggSym(c *core.Ctx) []ob {
 						}
 					}
 				}
-				if be, ok := x.(*ast.BinaryExpr); ok && (be.Op == token.NEQ || be.Op == token.EQL) {
+				return true
+			})
+			// the comparisons that reject on their own: the condition itself, or a disjunct of it (a comparison
+			// conjoined with further conditions — `a != b && a != 0 && b != 0` — lets mismatches through)
+			var effective func(e ast.Expr)
+			effective = func(e ast.Expr) {
+				e = unparen(e)
+				if be, ok := e.(*ast.BinaryExpr); ok && be.Op == token.LOR {
+					effective(be.X)
+					effective(be.Y)
+					return
+				}
+				if ue, ok := e.(*ast.UnaryExpr); ok && ue.Op == token.NOT {
+					// !a.Equal(&b)
+					if call, ok := unparen(ue.X).(*ast.CallExpr); ok {
+						if s, ok := unparen(call.Fun).(*ast.SelectorExpr); ok && s.Sel.Name == "Equal" && len(call.Args) == 1 {
+							pa, ra := aggProjection(info, s.X, params, views, 0)
+							pb, rb := aggProjection(info, call.Args[0], params, views, 0)
+							if (pa == 0 && pb == 1 || pa == 1 && pb == 0) && ra == rb {
+								guardBoth[ra] = true
+							}
+						}
+					}
+					return
+				}
+				if be, ok := e.(*ast.BinaryExpr); ok && be.Op == token.NEQ {
 					pa, ra := aggProjection(info, stripCalls(be.X), params, views, 0)
 					pb, rb := aggProjection(info, stripCalls(be.Y), params, views, 0)
 					if (pa == 0 && pb == 1 || pa == 1 && pb == 0) && ra == rb {
 						guardBoth[ra] = true
 					}
 				}
-				// !a.Equal(&b)
-				if call, ok := x.(*ast.CallExpr); ok {
-					if s, ok := unparen(call.Fun).(*ast.SelectorExpr); ok && s.Sel.Name == "Equal" && len(call.Args) == 1 {
-						pa, ra := aggProjection(info, s.X, params, views, 0)
-						pb, rb := aggProjection(info, call.Args[0], params, views, 0)
-						if (pa == 0 && pb == 1 || pa == 1 && pb == 0) && ra == rb {
-							guardBoth[ra] = true
-						}
-					}
-				}
-				return true
-			})
+			}
+			effective(is.Cond)
 			if (mentions[0] || mentions[1]) && !(mentions[0] && mentions[1]) {
 				problems = append(problems, fmt.Sprintf("the guard `%s` mentions only one of the two input shares: a mismatched second share is never rejected", exprString(is.Cond)))
 			}
